@@ -32,6 +32,8 @@ import (
 	"path/filepath"
 	"sort"
 	"strings"
+	"sync"
+	"syscall"
 	"time"
 	. "vh/kit"
 
@@ -210,7 +212,7 @@ func (p *pool) id(der []byte) int {
 // ---------- in-memory description of a tree to build ----------
 
 type fnode struct {
-	kind   byte // 'f' file, 'd' directory, 'l' symbolic link
+	kind   byte // 'f' file, 'd' directory, 'l' symbolic link; outside the property's alphabet: 'p' FIFO (data = what a writer feeds), 's' socket, 'c' character device (null)
 	data   []byte
 	ents   map[string]*fnode
 	target string // link target; a leading '@' stands for the scenario directory (parent of root)
@@ -220,6 +222,9 @@ type fnode struct {
 func newDir() *fnode                { return &fnode{kind: 'd', ents: map[string]*fnode{}} }
 func newFile(b []byte, note string) *fnode { return &fnode{kind: 'f', data: b, note: note} }
 func newLink(t string) *fnode       { return &fnode{kind: 'l', target: t} }
+func newFifo(b []byte, note string) *fnode { return &fnode{kind: 'p', data: b, note: note} }
+func newSocket() *fnode             { return &fnode{kind: 's'} }
+func newNullDev() *fnode            { return &fnode{kind: 'c'} }
 
 // put places n at the slash-separated path below d, creating directories.
 func (d *fnode) put(p string, n *fnode) {
@@ -268,10 +273,20 @@ func (d *fnode) lookupDir(p string) (*fnode, bool) {
 	return cur, true
 }
 
+// fifos records, per FIFO created, the bytes a writer will feed into it.
+var fifos = map[string][]byte{}
+
 func materialise(scn string, at string, n *fnode) error {
 	switch n.kind {
 	case 'f':
 		return os.WriteFile(at, n.data, 0o644)
+	case 'p':
+		fifos[at] = n.data
+		return syscall.Mkfifo(at, 0o644)
+	case 's':
+		return syscall.Mknod(at, syscall.S_IFSOCK|0o644, 0)
+	case 'c':
+		return syscall.Mknod(at, syscall.S_IFCHR|0o644, 1<<8|3) // the null device
 	case 'l':
 		t := n.target
 		if strings.HasPrefix(t, "@") {
@@ -298,15 +313,19 @@ type describer struct {
 	cache map[[32]byte][2]string
 	short map[string]string // full mk_cert term -> name defined in the prelude
 	certs int               // regular files holding at least one certificate
+	x     bool              // describe with the constructors of C13_Special.xnode (FIFOs, sockets, devices allowed)
+	tmp   string            // scratch directory (content of what a FIFO delivers is asked through a regular file)
 }
 
-func (d *describer) file(pth string) (term, text string) {
+// content asks notation-core-go what the file at pth holds: the Gallina term of
+// type content and a text for the replay files.
+func (d *describer) content(pth string) (term, text string) {
 	b, err := os.ReadFile(pth)
 	var key [32]byte
 	if err == nil {
 		key = sha256.Sum256(b)
 		if v, ok := d.cache[key]; ok {
-			if strings.HasPrefix(v[0], "(NFile (CCerts [") && v[0] != "(NFile (CCerts []))" {
+			if strings.HasPrefix(v[0], "(CCerts [") && v[0] != "(CCerts [])" {
 				d.certs++
 			}
 			return v[0], v[1]
@@ -314,7 +333,7 @@ func (d *describer) file(pth string) (term, text string) {
 	}
 	certs, rerr := corex509.ReadCertificateFile(pth)
 	if rerr != nil {
-		term, text = "(NFile CErr)", "unparsable"
+		term, text = "CErr", "unparsable"
 	} else {
 		items := make([]string, len(certs))
 		labels := make([]string, len(certs))
@@ -327,16 +346,24 @@ func (d *describer) file(pth string) (term, text string) {
 			}
 			labels[i] = fmt.Sprintf("#%d %s", id, d.p.certs[id-1].label)
 		}
-		term = "(NFile (CCerts " + CList(items) + "))"
+		term = "(CCerts " + CList(items) + ")"
 		text = "certs[" + strings.Join(labels, ", ") + "]"
 	}
 	if err == nil {
 		d.cache[key] = [2]string{term, text}
 	}
-	if strings.HasPrefix(term, "(NFile (CCerts [") && term != "(NFile (CCerts []))" {
+	if strings.HasPrefix(term, "(CCerts [") && term != "(CCerts [])" {
 		d.certs++
 	}
 	return term, text
+}
+
+// ctor names a constructor of node (base alphabet) or xnode (larger alphabet).
+func (d *describer) ctor(k string) string {
+	if d.x {
+		return "X" + k
+	}
+	return "N" + k
 }
 
 func (d *describer) node(pth, rel string, depth int, lines *[]string) string {
@@ -349,10 +376,10 @@ func (d *describer) node(pth, rel string, depth int, lines *[]string) string {
 		tgt, err := filepath.EvalSymlinks(pth)
 		if err != nil || depth > 6 {
 			*lines = append(*lines, rel+" -> (dangling)")
-			return "(NLink None)"
+			return "(" + d.ctor("Link") + " None)"
 		}
 		*lines = append(*lines, rel+" -> symlink, resolves to:")
-		return "(NLink (Some " + d.node(tgt, rel+"@", depth+1, lines) + "))"
+		return "(" + d.ctor("Link") + " (Some " + d.node(tgt, rel+"@", depth+1, lines) + "))"
 	case fi.IsDir():
 		es, err := os.ReadDir(pth)
 		if err != nil {
@@ -365,11 +392,32 @@ func (d *describer) node(pth, rel string, depth int, lines *[]string) string {
 		for i, e := range es {
 			items[i] = CPair(CStr(e.Name()), d.node(filepath.Join(pth, e.Name()), rel+"/"+e.Name(), depth, lines))
 		}
-		return "(NDir " + CList(items) + ")"
+		return "(" + d.ctor("Dir") + " " + CList(items) + ")"
 	case fi.Mode().IsRegular():
-		term, text := d.file(pth)
+		term, text := d.content(pth)
 		*lines = append(*lines, rel+": "+text)
-		return term
+		return "(" + d.ctor("File") + " " + term + ")"
+	case d.x && fi.Mode()&os.ModeNamedPipe != 0:
+		// what a read of the FIFO delivers is what the feeder writes: ask the parser about these bytes
+		data, ok := fifos[pth]
+		if !ok {
+			panic("c13: FIFO without feeder data at " + pth)
+		}
+		tf := filepath.Join(d.tmp, "fifo-content")
+		if err := os.WriteFile(tf, data, 0o644); err != nil {
+			panic(err)
+		}
+		term, text := d.content(tf)
+		*lines = append(*lines, rel+": FIFO, a writer feeds "+text)
+		return "(XOther " + term + ")"
+	case d.x && fi.Mode()&os.ModeSocket != 0:
+		term, text := d.content(pth) // open(2) of a socket fails: the parser reports an error
+		*lines = append(*lines, rel+": socket ("+text+")")
+		return "(XOther " + term + ")"
+	case d.x && fi.Mode()&os.ModeCharDevice != 0:
+		term, text := d.content(pth) // the null device: an empty read
+		*lines = append(*lines, rel+": character device null ("+text+")")
+		return "(XOther " + term + ")"
 	}
 	panic("c13: unsupported file kind at " + pth)
 }
@@ -444,6 +492,9 @@ type scenario struct {
 	// as a later step of a history: files are rewritten in place (same names;
 	// the directory itself is not touched, its modification time stays)
 	inPlace bool
+	// the tree holds FIFOs / sockets / devices (outside the property's alphabet):
+	// described as C13_Special.xnode, judged by xmodel
+	special bool
 }
 
 func (sc *scenario) steps() []*scenario { return append([]*scenario{sc}, sc.next...) }
@@ -466,8 +517,9 @@ type c13Case struct {
 }
 
 type gen struct {
-	rng *Rng
-	p   *pool
+	rng     *Rng
+	p       *pool
+	nullDev bool // this process may create character device nodes
 }
 
 func pemBlock(typ string, der []byte) []byte {
@@ -1115,6 +1167,84 @@ func (g *gen) scenarios(tier string, emit func(*scenario)) {
 			}
 		}
 	}
+	// F11: entries that are neither regular files nor directories nor links (outside the
+	// property's alphabet; C13_Special): a FIFO fed by a writer with a good certificate /
+	// garbage / nothing / an unacceptable certificate, a socket, the null device - at every
+	// position among 1-3 entries; the store path or the type directory being such a file
+	specialKinds := []string{"fifo-good", "fifo-garbage", "fifo-empty", "fifo-badcert", "socket"}
+	if g.nullDev {
+		specialKinds = append(specialKinds, "chardev-null")
+	}
+	for r := 0; r < 1*mult; r++ {
+		for _, ty := range validTypes {
+			kinds := specialKinds
+			if ty == "tsa" {
+				kinds = append(append([]string{}, kinds...), "fifo-nonroot")
+			}
+			mkSpecial := func(kind string) *fnode {
+				switch kind {
+				case "fifo-good":
+					c := g.p.pick(rng, okFor(ty))
+					return newFifo(pemBlock("CERTIFICATE", c.der), kind)
+				case "fifo-garbage":
+					return newFifo([]byte("not a certificate at all\n"), kind)
+				case "fifo-empty":
+					return newFifo(nil, kind)
+				case "fifo-badcert":
+					c := g.p.pick(rng, func(c *pcert) bool { return !c.okCA() })
+					return newFifo(c.der, kind)
+				case "fifo-nonroot":
+					c := g.p.pick(rng, func(c *pcert) bool { return c.okCA() && !c.okTSA() })
+					return newFifo(pemBlock("CERTIFICATE", c.der), kind)
+				case "socket":
+					return newSocket()
+				case "chardev-null":
+					return newNullDev()
+				}
+				panic("special kind " + kind)
+			}
+			for _, kind := range kinds {
+				for k := 1; k <= 3; k++ {
+					for pos := 0; pos < k; pos++ {
+						sc := &scenario{family: "special-entry:" + kind, root: newDir(), special: true}
+						nm := Pick(rng, plainNames[:6])
+						d := sc.root.mkdir(storeRel(ty, nm))
+						for i, n := range g.names(k) {
+							if i == pos {
+								d.ents[n] = mkSpecial(kind)
+							} else {
+								d.ents[n] = g.goodFile(ty)
+							}
+						}
+						sc.queries = []query{{ty, nm}}
+						emit(sc)
+					}
+				}
+			}
+			// two FIFOs in one store, both delivering good certificates
+			{
+				sc := &scenario{family: "special-entry:two-fifos", root: newDir(), special: true}
+				nm := Pick(rng, plainNames[:6])
+				d := sc.root.mkdir(storeRel(ty, nm))
+				d.ents["a.fifo"], d.ents["m.pem"], d.ents["z.fifo"] = mkSpecial("fifo-good"), g.goodFile(ty), mkSpecial("fifo-good")
+				sc.queries = []query{{ty, nm}}
+				emit(sc)
+			}
+			// the store path / the type directory is a FIFO or a socket
+			for _, kind := range []string{"fifo-good", "socket"} {
+				sc := &scenario{family: "special-entry:store-is-" + kind, root: newDir(), special: true}
+				nm := Pick(rng, plainNames[:6])
+				g.goodStore(sc, storeRel(ty, "other"), ty, 1)
+				sc.root.put(storeRel(ty, nm), mkSpecial(kind))
+				sc.queries = []query{{ty, nm}, {ty, "other"}}
+				emit(sc)
+				sc = &scenario{family: "special-entry:type-is-" + kind, root: newDir(), special: true}
+				sc.root.put("truststore/x509/"+ty, mkSpecial(kind))
+				sc.queries = []query{{ty, nm}}
+				emit(sc)
+			}
+		}
+	}
 	// F6: randomly assembled trees, every store asked, plus names that are not there
 	nrand := 260 * mult
 	for r := 0; r < nrand; r++ {
@@ -1155,6 +1285,59 @@ func (g *gen) scenarios(tier string, emit func(*scenario)) {
 	}
 }
 
+// feed starts one writer per FIFO below dir: it waits (non-blocking opens) until a
+// reader has the FIFO open, writes the bytes registered for it once and closes.
+// The returned function stops the writers that were never needed.
+func feed(dir string) (stop func()) {
+	done := make(chan struct{})
+	var wg sync.WaitGroup
+	for pth, data := range fifos {
+		if !strings.HasPrefix(pth, dir+string(filepath.Separator)) {
+			continue
+		}
+		wg.Add(1)
+		go func(pth string, data []byte) {
+			defer wg.Done()
+			for {
+				select {
+				case <-done:
+					return
+				default:
+				}
+				fd, err := syscall.Open(pth, syscall.O_WRONLY|syscall.O_NONBLOCK, 0)
+				if err != nil {
+					time.Sleep(100 * time.Microsecond)
+					continue
+				}
+				syscall.SetNonblock(fd, false)
+				for len(data) > 0 {
+					n, err := syscall.Write(fd, data)
+					if err != nil || n <= 0 {
+						break
+					}
+					data = data[n:]
+				}
+				syscall.Close(fd)
+				return
+			}
+		}(pth, data)
+	}
+	return func() { close(done); wg.Wait() }
+}
+
+// mknodOK reports whether this process may create a character device node.
+func mknodOK(dir string) bool {
+	p := filepath.Join(dir, "probe-null")
+	os.MkdirAll(dir, 0o755)
+	err := syscall.Mknod(p, syscall.S_IFCHR|0o644, 1<<8|3)
+	if err != nil {
+		return false
+	}
+	b, rerr := os.ReadFile(p)
+	os.Remove(p)
+	return rerr == nil && len(b) == 0
+}
+
 func indexOf(xs []string, x string) int {
 	for i, y := range xs {
 		if x == y {
@@ -1166,7 +1349,7 @@ func indexOf(xs []string, x string) int {
 
 func runC13(a *Args) error {
 	rng := NewRng(a.Seed)
-	prelude := "From NV Require Import Base C13_Model.\nOpen Scope string_scope.\n"
+	prelude := "From NV Require Import Base C13_Model C13_Special.\nOpen Scope string_scope.\n"
 	p := newPool()
 	short := map[string]string{}
 	for i, c := range p.certs {
@@ -1174,10 +1357,12 @@ func runC13(a *Args) error {
 		short[full] = fmt.Sprintf("k%d", i+1)
 		prelude += fmt.Sprintf("Definition k%d : cert := %s. (* %s *)\n", i+1, full, c.label)
 	}
-	w := NewCaseWriter(a, "C13", prelude, "case", "run")
-	w.Rule = "real temporary directory trees queried through truststore.NewX509TrustStore(dir.NewSysFS(root)).GetCertificates: (valid) stores of 1-4 good files per type; (one-bad) one offending entry of each of 17 kinds at every position among 1-4 entries; the same files under all three types; 14 shapes of the store path itself (symlinked store inside/outside/relative/chained, dangling, file, absent, empty, type directory absent/file/symlink, x509 a file, truststore a symlink); non-plain names and unknown types with a loadable store placed where an unvalidated path.Join would lead (incl. '.', '..', '' with certificates directly in the type directory and in x509/); randomly assembled trees; (history) 2-5 states of one directory queried through ONE X509TrustStore instance: pass/fail/pass, fail/pass/fail, certificates replaced, store removed and recreated, store turned into a symlink / a file and back, an entry turned into a symlink, same name under another type - each call is its own case judged on the tree as read back at that moment; (near-name / near-type) a name or type one normalisation away from a valid one (surrounding white space, case, first / last path element, trailing separator, NUL, trailing dot, quotes, list) with loadable stores at every place a normalising implementation would read and nothing at the literal plain name; (skippable-entry-name) hidden / backup / readme / odd-extension names as the offending entry, as a good file among others, as the only file, as directory or link; (cert-position) the unacceptable certificate at every position of a 2-4 certificate file, that file first and last. File formats: PEM, DER, multi-certificate, PEM with surrounding text, other block type, CRLF. The tree handed to the model is read back with Lstat/ReadDir/EvalSymlinks and file facts are asked from notation-core-go and crypto/x509. non-trivial = some regular file with at least one certificate exists below the root or behind a link; distinct = distinct (tree, type, name)"
+	// gcase = a case over the property's alphabet (GB, judged by C13_Model.run's functions) or over the
+	// larger alphabet with FIFOs / sockets / devices (GX, C13_Special); grun (map GB cs) = run cs is proved
+	w := NewCaseWriter(a, "C13", prelude, "gcase", "grun")
+	w.Rule = "real temporary directory trees queried through truststore.NewX509TrustStore(dir.NewSysFS(root)).GetCertificates: (valid) stores of 1-4 good files per type; (one-bad) one offending entry of each of 17 kinds at every position among 1-4 entries; the same files under all three types; 14 shapes of the store path itself (symlinked store inside/outside/relative/chained, dangling, file, absent, empty, type directory absent/file/symlink, x509 a file, truststore a symlink); non-plain names and unknown types with a loadable store placed where an unvalidated path.Join would lead (incl. '.', '..', '' with certificates directly in the type directory and in x509/); randomly assembled trees; (history) 2-5 states of one directory queried through ONE X509TrustStore instance: pass/fail/pass, fail/pass/fail, certificates replaced, store removed and recreated, store turned into a symlink / a file and back, an entry turned into a symlink, same name under another type - each call is its own case judged on the tree as read back at that moment; (near-name / near-type) a name or type one normalisation away from a valid one (surrounding white space, case, first / last path element, trailing separator, NUL, trailing dot, quotes, list) with loadable stores at every place a normalising implementation would read and nothing at the literal plain name; (skippable-entry-name) hidden / backup / readme / odd-extension names as the offending entry, as a good file among others, as the only file, as directory or link; (cert-position) the unacceptable certificate at every position of a 2-4 certificate file, that file first and last; (special-entry, OUTSIDE the property's alphabet, cases over C13_Special.xnode judged by xmodel) a FIFO fed by a concurrent writer with a good certificate / garbage / nothing / an unacceptable certificate / a non-root (tsa), a socket, the null device (where mknod is permitted) at every position among 1-3 entries, two FIFOs in one store, the store path or the type directory being a FIFO / socket. File formats: PEM, DER, multi-certificate, PEM with surrounding text, other block type, CRLF. The tree handed to the model is read back with Lstat/ReadDir/EvalSymlinks and file facts are asked from notation-core-go and crypto/x509. non-trivial = some regular file with at least one certificate exists below the root or behind a link; distinct = distinct (tree, type, name)"
 	w.Assumptions = []string{
-		"directory entries are regular files, directories or symbolic links (FIFOs, sockets and devices are outside the property's alphabet: the code would block on a FIFO)",
+		"directory entries are regular files, directories or symbolic links; FIFOs, sockets and the null device are outside the property's alphabet and covered by the family special-entry over the larger alphabet of C13_Special (what a FIFO delivers = what the parser says of the bytes the harness's writer feeds; a FIFO that nobody ever writes to blocks GetCertificates for ever and is not exercised)",
 		"os.ReadDir of an existing real directory succeeds and files are readable (the harness runs as the owner); a read error is covered by the same branch as a parse error (CErr)",
 		"the root handed to dir.NewSysFS is a clean absolute path",
 		"symbolic links are represented by what the kernel resolves them to (no link cycles)",
@@ -1195,6 +1380,9 @@ func runC13(a *Args) error {
 	}
 	fsBase, _ = filepath.Abs(fsBase)
 	defer os.RemoveAll(fsBase)
+	g.nullDev = mknodOK(fsBase)
+	d.tmp = fsBase
+	w.Set("special_entries_character_device", map[bool]string{true: "created with mknod", false: "skipped: mknod of a character device is not permitted here"}[g.nullDev])
 
 	var id int64
 	var scn int
@@ -1238,6 +1426,7 @@ func runC13(a *Args) error {
 			}
 			var lines []string
 			d.certs = 0
+			d.x = st.special
 			tree := d.node(root, "", 0, &lines)
 			hasCerts := d.certs > 0
 			stepText := ""
@@ -1247,7 +1436,12 @@ func runC13(a *Args) error {
 			for _, q := range st.queries {
 				my++
 				// every call of the scenario is made (earlier calls are the state of the instance); only wanted ones are emitted
+				stopFeed := func() {}
+				if st.special {
+					stopFeed = feed(scDir) // a FIFO blocks its reader until a writer opens it
+				}
 				certs, err := ts.GetCertificates(context.Background(), truststore.Type(q.ty), q.name)
+				stopFeed()
 				if !w.Want(my) {
 					continue
 				}
@@ -1275,8 +1469,12 @@ func runC13(a *Args) error {
 					w.Count("observed", "loaded")
 					w.Count("loaded_certificates", fmt.Sprint(len(certs)))
 				}
-				in := CApp("mk_input", CStr(q.ty), CStr(q.name), tree)
-				term := CApp("mk_case", CN(my), in, obs)
+				var term string
+				if st.special {
+					term = CApp("GX", CApp("mk_xcase", CN(my), CApp("mk_xinput", CStr(q.ty), CStr(q.name), tree), obs))
+				} else {
+					term = CApp("GB", CApp("mk_case", CN(my), CApp("mk_input", CStr(q.ty), CStr(q.name), tree), obs))
+				}
 				desc := c13Case{Family: sc.family, Type: q.ty, Name: q.name, Tree: lines, Obs: obsText, Step: stepText}
 				w.Add(my, term, desc, q.ty+"\x00"+q.name+"\x00"+tree, hasCerts)
 				w.Count("family", strings.SplitN(sc.family, ":", 2)[0])
